@@ -916,12 +916,25 @@ def _iter_standard_one(ctx, roles, v, kind, info, rules):
     if want("ITER-OUT"):
         ctx.check(ok, "ITER-OUT", b, "output-of-new-state:" + tag, b.loc(obi),
                   "the reporting condition must be output_pos of the post-transition state; read at %s" % show(oarg), show(oarg))
-    osw = switches_on(root, lambda d: d[0] == "discr" and d[1][0] == "call" and d[1][3] == osite)
+    def _on_output(d):
+        # `if let Some(p) = ..output_pos()` / match, or `..output_pos()?` (Continue = there is an output)
+        if d[0] != "discr" or d[1][0] != "call":
+            return False
+        x = d[1]
+        if isinstance(x[1], str) and core.callee_base(x[1]) == "core::ops::Try::branch" and x[2] and x[2][0][0] == "call":
+            x = x[2][0]
+        return x[3] == osite
+    osw = switches_on(root, _on_output)
     if len(osw) != 1:
         ctx.bad("ITER-OUT", b, "output-switch:" + tag, b.loc(obi), "output_pos must be matched exactly once")
         return
-    osbi, ost, _ = osw[0]
-    osome, onone = opt_arms(ost)
+    osbi, ost, od = osw[0]
+    if od[1][3] == osite:
+        osome, onone = opt_arms(ost)
+    else:
+        cont_ = [tb for val, tb in ost["targets"] if val == 0]
+        brk_ = [tb for val, tb in ost["targets"] if val == 1] or [ost["otherwise"]]
+        osome, onone = (cont_[0] if cont_ else ost["otherwise"]), brk_[0]
 
     # ---- reports
     scan_reports = []
